@@ -139,7 +139,7 @@ Qed.
 Theorem dl_inv_step cfg s e s' acts : cfg_positive cfg -> dl_inv s -> step cfg s e = (s', acts) -> dl_inv s'.
 Proof.
   intros Hpos Hinv H. pose proof Hpos as (Hpa & Hpp & Hpc). unfold dl_inv in *.
-  destruct e as [src tid c r unk|src p d|src n d|relay from d|dt|relay|csrc|].
+  destruct e as [src tid c r unk|src p d|src n d|relay from d|dt|relay|csrc| |].
   - pose proof (req_locality _ _ _ _ _ _ _ _ _ H) as [_ Hnow]. rewrite Hnow. cbn [step] in H.
     destruct unk; [inversion H; subst; assumption|].
     destruct r as [tr lt fam df rp|lt fam|peers|n p|]; try (inversion H; subst; assumption);
@@ -186,6 +186,7 @@ Proof.
   - cbn [step] in H. unfold h_ctl_close in H. destruct (find_alloc csrc (allocs s)); inversion H; subst; cbn;
       [apply Forall_remove_alloc|]; assumption.
   - cbn [step] in H. inversion H; subst; cbn. constructor.
+  - cbn [step] in H. inversion H; subst. assumption.
 Qed.
 
 Theorem dl_inv_run cfg h : cfg_positive cfg -> forall s, dl_inv s -> dl_inv (final cfg s h).
